@@ -139,6 +139,7 @@ theorem mm_decode_encode (k : Kind) (f : SFile) (h : WF f) :
       rw [frame_len, h.cells s hs c hc])
     omega
   rw [if_neg hwhole, chunk_records f h]
+  unfold mmRows
   simp only
   rw [leading_eq f h s0 s1 rest hst hne hm]
   have hlen := flatten_length f.steps s0.slabs.length hsame
